@@ -11,6 +11,7 @@ import (
 	"crypto/sha256"
 	"encoding/binary"
 	"errors"
+	"fmt"
 	"io"
 	"io/fs"
 	"os"
@@ -489,4 +490,53 @@ func (d *Dev) Poke(off int64, p []byte) {
 	d.ReadOnly = false
 	d.writeLocked(p, off)
 	d.ReadOnly = ro
+}
+
+// Digest returns a hex digest of the content of the given ranges that is cheap for sparse devices:
+// only pages that were ever written and differ from the background take part (page offset + bytes), so
+// rewriting a byte with the value it already had does not change the digest while any real change does.
+func (d *Dev) Digest(rs ...Range) string {
+	d.mu.Lock()
+	defer d.mu.Unlock()
+	idx := make([]int64, 0, len(d.pages))
+	for i := range d.pages {
+		idx = append(idx, i)
+	}
+	sort.Slice(idx, func(i, j int) bool { return idx[i] < idx[j] })
+	h := sha256.New()
+	var hdr [8]byte
+	for _, r := range rs {
+		lo, hi := r.Off, r.Off+r.Len
+		for _, i := range idx {
+			base := i * pageSize
+			a, b := base, base+pageSize
+			if a < lo {
+				a = lo
+			}
+			if b > hi {
+				b = hi
+			}
+			if a >= b {
+				continue
+			}
+			seg := d.pages[i][a-base : b-base]
+			if d.isBackground(seg, a) {
+				continue
+			}
+			for k := 0; k < 8; k++ {
+				hdr[k] = byte(a >> (8 * k))
+			}
+			h.Write(hdr[:])
+			h.Write(seg)
+		}
+	}
+	return fmt.Sprintf("%x", h.Sum(nil)[:12])
+}
+
+// IsBackground reports whether [off, off+n) holds nothing but the never-written background.
+func (d *Dev) IsBackground(off, n int64) bool {
+	b := d.Bytes(off, n)
+	d.mu.Lock()
+	defer d.mu.Unlock()
+	return d.isBackground(b, off)
 }
